@@ -428,6 +428,10 @@ theorem contains_iff (s sub : Bytes) : contains s sub = true ↔ Occurs sub s :=
     obtain ⟨⟨a, b, hab, _⟩, _⟩ := indexOf_spec sub s i h
     exact ⟨a, b, hab⟩
 
+theorem occurs_of_indexOf {sub s : Bytes} {i : Nat} (h : indexOf sub s = some i) : Occurs sub s := by
+  obtain ⟨⟨a, b, hab, _⟩, _⟩ := indexOf_spec sub s i h
+  exact ⟨a, b, hab⟩
+
 theorem Occurs.indexOf {sub s : Bytes} (h : Occurs sub s) : ∃ i, indexOf sub s = some i := by
   cases hi : Stop.indexOf sub s with
   | none => exact absurd h (indexOf_none sub s hi)
@@ -1283,5 +1287,84 @@ theorem runSched_eq_run (pinned : Bool) (limit : Int) (stops : List Bytes) (cap 
           cases sched with
           | nil => exact ih _ _ [] hd' (by rw [Chan.read_all]; exact hdel)
           | cons r rs => exact ih _ _ rs hd' (by rw [Chan.read_all]; exact hdel)
+
+/-! ## I. the shape of TruncateStop's result (piece-preserving) -/
+
+/-- `Shape res pieces t`: `res` is `pieces` cut somewhere: every returned piece but the last equals
+    the original piece at the same position, the last is a prefix of it, and `t` (tokenTruncated)
+    says whether that last piece was cut. -/
+def Shape : List Bytes → List Bytes → Bool → Prop
+  | [], _, t => t = false
+  | _ :: _, [], _ => False
+  | [r], p :: _, t => r <+: p ∧ (t = true ↔ r ≠ p)
+  | r :: r' :: rs, p :: ps, t => r = p ∧ Shape (r' :: rs) ps t
+
+theorem splitBack_shape : ∀ (pieces : List Bytes) (rem : Bytes), rem <+: pieces.flatten →
+    Shape (splitBack (pieces.map List.length) rem).1 pieces (splitBack (pieces.map List.length) rem).2 := by
+  intro pieces
+  induction pieces with
+  | nil => intro rem _; simp [splitBack, Shape]
+  | cons p ps ih =>
+    intro rem h
+    simp only [List.map_cons]
+    unfold splitBack
+    split
+    · simp [Shape]
+    · rename_i hne
+      simp only [List.flatten_cons] at h
+      split
+      · rename_i hlen
+        -- rem is shorter than p: a proper prefix of it
+        have hp : rem <+: p := by
+          obtain ⟨w, hw⟩ := h
+          rcases List.append_eq_append_iff.mp hw with ⟨as, h1, _⟩ | ⟨bs, h1, _⟩
+          · exact ⟨as, h1.symm⟩
+          · have := congrArg List.length h1; simp at this; omega
+        refine ⟨hp, ?_⟩
+        constructor
+        · intro _ he; rw [he] at hlen; omega
+        · intro _; rfl
+      · rename_i hlen
+        have hp : ∃ r', rem = p ++ r' := by
+          obtain ⟨w, hw⟩ := h
+          rcases List.append_eq_append_iff.mp hw with ⟨as, h1, _⟩ | ⟨bs, h1, _⟩
+          · have := congrArg List.length h1; simp at this
+            have : as = [] := List.eq_nil_of_length_eq_zero (by omega)
+            subst this; exact ⟨[], by simpa using h1.symm⟩
+          · exact ⟨bs, h1⟩
+        obtain ⟨r', hr'⟩ := hp
+        subst hr'
+        have htake : (p ++ r').take p.length = p := by simp
+        have hdrop : (p ++ r').drop p.length = r' := by simp
+        rw [htake, hdrop]
+        have hr : r' <+: ps.flatten := (List.prefix_append_right_inj p).mp h
+        have := ih r' hr
+        show Shape (p :: (splitBack (ps.map List.length) r').1) (p :: ps) (splitBack (ps.map List.length) r').2
+        cases hres : (splitBack (ps.map List.length) r').1 with
+        | nil =>
+          rw [hres] at this
+          simp only [Shape] at this ⊢
+          refine ⟨List.prefix_refl _, ?_⟩
+          rw [this]; simp
+        | cons x xs =>
+          rw [hres] at this
+          simp only [Shape]
+          exact ⟨trivial, this⟩
+
+/-- **TruncateStop is piece-preserving.**  If the stop occurs, the returned pieces are the original
+    pieces cut at the stop's first occurrence (`truncateStop_flatten`) with `Shape`; if not, the pieces
+    come back unchanged and `tokenTruncated = false`. -/
+theorem truncateStop_shape (pieces : List Bytes) (stop : Bytes) :
+    (∀ idx, indexOf stop pieces.flatten = some idx →
+      Shape (truncateStop pieces stop).1 pieces (truncateStop pieces stop).2) ∧
+    (indexOf stop pieces.flatten = none → truncateStop pieces stop = (pieces, false)) := by
+  constructor
+  · intro idx h
+    unfold truncateStop
+    simp only [h]
+    exact splitBack_shape pieces _ (List.take_prefix _ _)
+  · intro h
+    unfold truncateStop
+    simp only [h]
 
 end OllamaVerif.Stop
